@@ -417,14 +417,24 @@ def fresh_rule(n, A, Bf):
     return _RULE_CACHE[key]
 
 
+# scale transport of a table (Quadrature.tla, scale covariance): units 2^ex for x, 2^ey for y; lengths 8 and 5 are coprime, so
+# every pair occurs along a run of 40 cases
+SCALE_EX = (-60, 40, -33, 60, -45, 12, -30, 33)
+SCALE_EY = (0, -60, 60, 30, -30)
+
+
 def obs_data(args):
     rid, tabcase, n, variant, entry = args[:5]
-    xrep, yrep = args[5] if len(args) > 5 else ("f8", "f8")
+    xrep, yrep = args[5] if len(args) > 5 and args[5] else ("f8", "f8")
     import esutil.integrate as ei
     ex, ey, off = unit = data_unit(xrep, yrep, variant)
+    if len(args) > 6 and args[6]:                            # transported: the unit of the representation times 2^sx, 2^sy
+        ex, ey = ex + args[6][0], ey + args[6][1]
+        unit = (ex, ey, off)
+    scale = list(args[6]) if len(args) > 6 and args[6] else None
     ft, xa, ya, yrep = concretise_tab(tabcase["tab"], unit, xrep, yrep)
     rec = {"k": "data", "id": rid, "n": n, "err": "none", "finite": True, "val": False, "tab": tabcase["tab"],
-           "exact": list(rq.OFF), "variant": variant, "entry": entry, "frame_ok": True, "xrep": xrep, "yrep": yrep, "unit": list(unit)}
+           "exact": list(rq.OFF), "variant": variant, "entry": entry, "frame_ok": True, "xrep": xrep, "yrep": yrep, "unit": list(unit), "scale": scale}
     bx, by = frozen(xa), frozen(ya)
     try:
         with np.errstate(all="ignore"), warnings.catch_warnings():
@@ -1243,12 +1253,13 @@ def obs_stress(args):
         ths = [threading.Thread(target=worker, args=(t,), daemon=True) for t in range(nthr)]
         for th in ths:
             th.start()
-        deadline, first_exit = time.monotonic() + 300, None
+        deadline, ndone, since = time.monotonic() + 1200, -1, time.monotonic()
         while any(th.is_alive() for th in ths) and time.monotonic() < deadline:
-            [th for th in ths if th.is_alive()][0].join(timeout=1.0)
-            if first_exit is None and not all(th.is_alive() for th in ths):
-                first_exit = time.monotonic()
-            if first_exit is not None and time.monotonic() - first_exit > 45:      # the others came back long ago (or gave up at the barrier)
+            [th for th in ths if th.is_alive()][0].join(timeout=0.5)
+            n = sum(1 for o in out for x in o if x is not None)
+            if n != ndone:
+                ndone, since = n, time.monotonic()
+            elif time.monotonic() - since > 45:                # no call has returned for this long (a call takes milliseconds)
                 break
         hung = [t for t, th in enumerate(ths) if th.is_alive()]
         if hung:
@@ -1282,7 +1293,7 @@ def thr_stress_isolated(argslist):
     ever in the process it happened in (and in everything forked from it later)"""
     import multiprocessing as mp
     nproc = max(1, min(len(argslist), int(os.environ.get("VH_MAX_WORKERS", "16"))))
-    with mp.get_context("fork").Pool(nproc) as pool:
+    with mp.get_context("fork").Pool(nproc, maxtasksperchild=1) as pool:
         jobs = [pool.apply_async(obs_stress, (a,)) for a in argslist]
         try:
             return [j.get(timeout=1200) for j in jobs]
@@ -1415,6 +1426,8 @@ def signature(r, clause):
             if rc != "plain":
                 cls += ";%s=%s" % (ax, rc)
                 break
+        if r.get("scale"):
+            cls += ";x unit %s;y unit %s" % tuple("tiny" if e <= -30 else ("huge" if e >= 30 else "ordinary") for e in r["scale"])
         return "integrators|%s|%s" % ("nonfinite" if clause == "nonfinite" else "data:" + clause, cls)
     if k == "tensor":
         et = ";endpoints=" + r["typed"][3] if r.get("typed") else ""
@@ -1454,7 +1467,7 @@ def replay_case(r):
                 "off_degrees": {f: [i for i, v in enumerate(r[f]) if v == rq.OFF] for f in ("mom", "nmom", "cheb")}}
     if k == "data":
         return {"kind": "data", "tab": r["tab"], "trapz": r.get("trapz"), "n": r["n"], "variant": r["variant"], "entry": r["entry"],
-                "xrep": r.get("xrep", "f8"), "yrep": r.get("yrep_asked", r.get("yrep", "f8")), "unit": r.get("unit"),
+                "xrep": r.get("xrep", "f8"), "yrep": r.get("yrep_asked", r.get("yrep", "f8")), "unit": r.get("unit"), "scale": r.get("scale"),
                 "observed": {f: r.get(f) for f in ("err", "finite", "val", "exact", "result")}}
     if k == "tensor":
         return {"kind": "tensor", "nx": r["nx"], "ny": r["ny"], "variant": r["variant"], "typed": r.get("typed"),
@@ -1838,6 +1851,19 @@ def run(ctx):
                 dc.append((len(dc) + 1, t, n, i + j, ents[(i + j) % 3], dreps[(len(dc) + 7 * ctx.seed) % len(dreps)]))
         if len(set(d[5] for d in dc)) < len(dreps):
             raise MachineryError("not every pair of table representations is used")
+        # scale covariance: tables transported to the units 2^-60 .. 2^60 in x and in y (every table in the thorough tier, every
+        # second one in the quick tier), in the floating-point representations
+        nplain = len(dc)
+        for i, t in enumerate(tabs):
+            if ctx.quick and (i + ctx.seed) % 2:
+                continue
+            k = len(dc) - nplain + ctx.seed
+            rp = dreps[(i + 3 * ctx.seed) % len(dreps)]
+            if rp[0] in INT_REPS or rp[1] in INT_REPS:
+                rp = ("f8", "f8")
+            dc.append((len(dc) + 1, t, ns[(i + 1) % len(ns)], i, ents[(i + k) % 3], rp, (SCALE_EX[k % len(SCALE_EX)], SCALE_EY[k % len(SCALE_EY)])))
+        if len(set(d[6] for d in dc[nplain:])) < len(SCALE_EX) * len(SCALE_EY):
+            raise MachineryError("not every pair of table units is used")
         recs = pmap(obs_data, dc)
         for r, d in zip(recs, dc):
             r["trapz"] = d[1]["trapz"]
@@ -1846,7 +1872,8 @@ def run(ctx):
         lin = [r for r in recs if r["exact"] != rq.OFF and r["finite"]]
         if lin:
             ctx.sample({"table": lin[0]["tab"], "n": lin[0]["n"], "result": lin[0].get("result"), "exact_integral_recorded": lin[0]["exact"]})
-        ctx.note(tables=len(tabs), data_integrations=len(dc), table_representation_pairs=len(dreps))
+        ctx.note(tables=len(tabs), data_integrations=len(dc), table_representation_pairs=len(dreps), tables_transported_to_other_scales=len(dc) - nplain,
+                 table_units_log2={"x": sorted(SCALE_EX), "y": sorted(SCALE_EY)})
     # 5. QGauss2
     if part("tensor"):
         extra = [] if ctx.quick else [(7, 12), (12, 7), (30, 30), (1, 9), (16, 16)]
@@ -2013,7 +2040,7 @@ def replay(ctx, case):
         judge(ctx, [r], "replay", count=False)
     elif k == "data":
         r = obs_data((1, {"tab": case["tab"], "trapz": case["trapz"]}, case["n"], case["variant"], case["entry"],
-                      (case.get("xrep", "f8"), case.get("yrep", "f8"))))
+                      (case.get("xrep", "f8"), case.get("yrep", "f8")), case.get("scale")))
         r["trapz"] = case["trapz"]
         print("replay observed:", {f: r.get(f) for f in ("err", "finite", "val", "exact", "result")})
         judge(ctx, [r], "replay", count=False)
